@@ -5,12 +5,18 @@ import sys
 from . import common
 
 
+# modules with a gen() that regenerates coq/theories/Gen/*.v from /repo
+GEN_MODULES = ["c20"]
+
+
 def main():
     if len(sys.argv) < 2:
         print("usage: check <ID|setup> [--tier quick|thorough]")
         sys.exit(2)
     pid = sys.argv[1]
     if pid == "setup":
+        for name in GEN_MODULES:
+            importlib.import_module("harness." + name).gen()
         ok, log = common.coq_make(jobs=16)
         print(log[-3000:])
         sys.exit(0 if ok else 1)
